@@ -25,6 +25,7 @@ import (
 	"context"
 	"crypto/sha256"
 	"encoding/hex"
+	"encoding/json"
 	"fmt"
 	"os"
 	"path/filepath"
@@ -413,6 +414,12 @@ func firstEscape(es []entry, dest, top string, rec bool) ([]entry, bool) {
 		p := filepath.Join(dest, string(e.Name))
 		if !under(top, p) {
 			return []entry{{Name: e.Name}}, true
+		}
+		// a file entry whose path leaves the destination once it has been converted to UTF-8 (stable detections only)
+		if !e.isDir() && !utf8.ValidString(p) && !detectionTied(p) {
+			if q, err := filesystem.VerifDetermineUnzippedFilepath(p); err == nil && q != p && !under(top, filepath.Clean(q)) {
+				return []entry{{Name: e.Name}}, true
+			}
 		}
 		if rec && e.IsZip && !e.isDir() && len(e.Inner) > 0 && isZipName(p) && p != dest {
 			nd := filepath.Join(filepath.Dir(p), filesystem.FilepathStem(p))
@@ -845,6 +852,77 @@ var destShapes = []string{"/V/s/a/b/c/dest", "/V/s/a/b/c/dest/", "/V/s/a/b//c/de
 
 func genDest(r *h.Run) string { return pick(r, destShapes) }
 
+// Texts the error converters on unzip's error path match against error MESSAGES, and the messages of the other error
+// kinds, regenerated from the source by translator-c02 (coq/C02/triggers.json): the malicious error quotes the
+// attacker-chosen entry name, so an escaping name that contains such a text must still be refused as malicious.
+var converterTexts = []string{"i/o timeout", "file exists", "file already exists", "bad file descriptor", "not supported"}
+var kindMessages = []string{"timeout", "cancelled", "not found", "already exists", "conflict", "unsupported", "not implemented", "invalid", "end of file"}
+
+func loadTriggers(r *h.Run) {
+	root := os.Getenv("VERIF_ROOT")
+	if root == "" {
+		root = "/verif"
+	}
+	bs, err := os.ReadFile(filepath.Join(root, "coq", "C02", "triggers.json"))
+	var t struct {
+		Conv  []string `json:"converter_texts"`
+		Kinds []string `json:"kind_messages"`
+	}
+	if err != nil || json.Unmarshal(bs, &t) != nil || len(t.Conv) == 0 {
+		r.Note("triggers.json not readable: built-in converter texts used")
+	} else {
+		converterTexts, kindMessages = t.Conv, t.Kinds
+	}
+	for i, c := range converterTexts {
+		fileElems = append(fileElems, c)
+		if i%2 == 0 {
+			dirElems = append(dirElems, c)
+		} else {
+			dirElems = append(dirElems, strings.ToUpper(c))
+		}
+	}
+	for i, k := range kindMessages {
+		if i%3 == 0 {
+			fileElems = append(fileElems, k)
+		}
+	}
+}
+
+type trigScenario struct {
+	sc   scenario
+	emit bool
+}
+
+// triggerCorpus: every text as part of an escaping file / directory / nested-archive / converted name, alone in its archive
+func triggerCorpus() []trigScenario {
+	var out []trigScenario
+	one := func(be string, rec bool, emit bool, es ...entry) {
+		out = append(out, trigScenario{scenario{Kind: "unzip", Backend: be, Dest: []byte("/V/s/a/b/c/dest"), Recursive: rec, Entries: es, Note: "error-text in an escaping name"}, emit})
+	}
+	for _, be := range []string{"mem", "os"} {
+		for ti, t := range append(append([]string{}, converterTexts...), kindMessages...) {
+			conv := ti < len(converterTexts)
+			variants := []string{t}
+			if conv {
+				variants = append(variants, strings.ToUpper(t), "x "+t+" y")
+			}
+			for _, v := range variants {
+				one(be, false, conv, entry{Name: []byte("../" + v)})
+				one(be, true, conv, entry{Name: []byte("ok.txt")}, entry{Name: []byte("a/../../" + v + "/f.txt")})
+				one(be, false, false, entry{Name: []byte("../" + v + "/")})
+				one(be, true, false, entry{Name: []byte("../" + v), Mode: uint32(os.ModeDir | 0o755)})
+				// nested archive whose inner entry leaves the (outer) destination, and one whose own name escapes
+				one(be, true, conv, entry{Name: []byte("n.zip"), IsZip: true, Inner: []entry{{Name: []byte("in.txt")}, {Name: []byte("../../" + v)}}})
+				one(be, true, false, entry{Name: []byte("../" + v + ".zip"), IsZip: true, Inner: []entry{{Name: []byte("in.txt")}}})
+				// escapes only once converted to UTF-8 (ISO-2022-JP escape sequences vanish)
+				one(be, false, conv, entry{Name: []byte(".\x1b(B./.\x1b(B./" + v + "\xff")})
+				one(be, true, false, entry{Name: []byte("sub/.\x1b(B./.\x1b(B./.\x1b(B./" + v + "/evil\xff")})
+			}
+		}
+	}
+	return out
+}
+
 func corpus() []scenario {
 	var out []scenario
 	f := func(names ...string) []entry {
@@ -968,6 +1046,7 @@ func main() {
 	cvShape = e == nil
 	r.Note(fmt.Sprintf("shape of the '..' test in the tree under test: element test = %v", cvShape))
 
+	loadTriggers(r)
 	var sc scenario
 	if _, ok := r.ReplayObject(&sc); ok {
 		runScenario(r, sc, false)
@@ -977,6 +1056,9 @@ func main() {
 	}
 	for _, c := range corpus() {
 		runScenario(r, c, true)
+	}
+	for _, c := range triggerCorpus() {
+		runScenario(r, c.sc, c.emit)
 	}
 	nUnzip := r.N(350, 6000)
 	emitUnzip := r.N(350, 1500)
